@@ -410,18 +410,17 @@ theorem name_pattern_exact (o o' : DistOpts) (pattern : String) (h : o.withPatte
       (by simp only [String.toList_ofList]; exact fun e => hs (hmem (Or.inl e)))
       (by simp only [String.toList_ofList]; exact fun e => hs (hmem (Or.inr e))) h1 h2
 
-/-- test: accepted and refused patterns -/
+/-- test: accepted (`o_%s.f`, `a%%%s.f`) and refused (`o.f`, `o%.0s.f`, `o%[2]s`, `o%s%s`, `o%d`, `o%%s`) patterns -/
 example :
-    Distribute.parsePatternL "out_%s.fasta".toList = some ("out_".toList, ".fasta".toList) ∧
-    Distribute.parsePatternL "a%%%s.fa".toList = some ("a%".toList, ".fa".toList) ∧
-    Distribute.parsePatternL "out.fasta".toList = none ∧
-    Distribute.parsePatternL "out%.0s.fasta".toList = none ∧
-    Distribute.parsePatternL "o_%[2]s.fa".toList = none ∧
-    Distribute.parsePatternL "o%.1s.fa".toList = none ∧
-    Distribute.parsePatternL "o_%s_%s.fa".toList = none ∧
-    Distribute.parsePatternL "o_%d.fa".toList = none ∧
-    Distribute.parsePatternL "o_%%s.fa".toList = none := by
-  refine ⟨by decide, by decide, by decide, by decide, by decide, by decide, by decide, by decide, by decide⟩
+    Distribute.parsePatternL ['o','_','%','s','.','f'] = some (['o','_'], ['.','f']) ∧
+    Distribute.parsePatternL ['a','%','%','%','s','.','f'] = some (['a','%'], ['.','f']) ∧
+    Distribute.parsePatternL ['o','.','f'] = none ∧
+    Distribute.parsePatternL ['o','%','.','0','s','.','f'] = none ∧
+    Distribute.parsePatternL ['o','%','[','2',']','s'] = none ∧
+    Distribute.parsePatternL ['o','%','s','%','s'] = none ∧
+    Distribute.parsePatternL ['o','%','d'] = none ∧
+    Distribute.parsePatternL ['o','%','%','s'] = none := by
+  refine ⟨?_, ?_, ?_, ?_, ?_, ?_, ?_, ?_⟩ <;> simp [Distribute.parsePatternL, Distribute.literalL]
 
 open ObiVerif.Distribute in
 /-- **every record is written to exactly one file, the one of its class, in input order**: the file
